@@ -15,6 +15,12 @@ impl ScopedCounter {
         }
     }
 
+    pub fn starting_at(count: usize) -> ScopedCounter {
+        ScopedCounter {
+            count: RefCell::new(count),
+        }
+    }
+
     pub fn count(&self) -> usize {
         *self.count.borrow()
     }
